@@ -5,7 +5,7 @@ seeds are expected to be caught (except the ones documented as still missed), ne
 import glob, json, os, subprocess, sys, tempfile
 from concurrent.futures import ThreadPoolExecutor
 HERE = os.path.dirname(os.path.dirname(os.path.abspath(__file__)))
-EXPECTED_MISSED = {"C08", "C04c", "C04d", "C10e"}
+EXPECTED_MISSED = {"C08", "C04c", "C04d", "C10e", "C06f", "C08f", "C14f"}
 # deep restructurings of round 2 that still raise an alarm (documented limits, DESIGN App. C)
 EXPECTED_ALARM = {"MC04-n1", "MC07-n3", "MC11-n1", "MC11-n3", "MC18-n1"}
 
@@ -30,7 +30,8 @@ def main():
     for p in sorted(glob.glob(os.path.join(HERE, "mutants", "patches", "neutral", "N*-n*.diff"))) + \
             sorted(glob.glob(os.path.join(HERE, "mutants", "patches", "neutral2", "M*-n*.diff"))) + \
             sorted(glob.glob(os.path.join(HERE, "mutants", "patches", "neutral3", "T*-n*.diff"))) + \
-            sorted(glob.glob(os.path.join(HERE, "mutants", "patches", "neutral4", "U*-n*.diff"))):
+            sorted(glob.glob(os.path.join(HERE, "mutants", "patches", "neutral4", "U*-n*.diff"))) + \
+            sorted(glob.glob(os.path.join(HERE, "mutants", "patches", "neutral5", "V*-n*.diff"))):
         b = os.path.basename(p)
         jobs.append(("neutral", b[:-5], p, b[1:4]))
     bad = 0
